@@ -30,7 +30,7 @@ BASE_DEFS = ['-DJLS_VERIF=1']
 CBMC_FLAGS = [
     '--unwinding-assertions', '--pointer-overflow-check', '--undefined-shift-check',
     '--signed-overflow-check', '--div-by-zero-check', '--drop-unused-functions',
-    '--no-malloc-may-fail', '--trace', '--json-ui', '--verbosity', '8',
+    '--no-malloc-may-fail', '--json-ui', '--verbosity', '8',
 ]
 
 _print_lock = threading.Lock()
@@ -126,9 +126,15 @@ def _limit(mem_gb):
     return f
 
 
+PORTFOLIO = ['cadical', 'kissat', 'minisat']
+
+
 def _backend_flags(b):
-    if b == 'cadical':
+    # default is cadical: minisat's preprocessing was measured 88 s vs 0.01 s on a 100k-variable gate query
+    if b is None or b == 'cadical':
         return ['--sat-solver', 'cadical']
+    if b == 'minisat':
+        return []
     if b == 'kissat':
         return ['--external-sat-solver', 'kissat']
     if b == 'z3':
@@ -138,9 +144,9 @@ def _backend_flags(b):
     return []
 
 
-def run_cbmc(obl, final, wd, unwind, unwindset, timeout):
+def run_cbmc(obl, final, wd, unwind, unwindset, timeout, extra=(), tagsuffix=''):
     """Run one query; with a list of back ends run them as a portfolio (first verdict wins, rest killed)."""
-    base = ['cbmc', final, '--function', obl.function] + CBMC_FLAGS + obl.flags
+    base = ['cbmc', final, '--function', obl.function] + CBMC_FLAGS + obl.flags + list(extra)
     if unwind is not None:
         base += ['--unwind', str(unwind)]
     if unwindset:
@@ -151,8 +157,8 @@ def run_cbmc(obl, final, wd, unwind, unwindset, timeout):
     procs = []
     t0 = time.time()
     for b in backends:
-        tag = b or 'minisat'
-        outp = os.path.join(wd, 'cbmc.%s.json' % tag)
+        tag = (b or 'cadical')
+        outp = os.path.join(wd, 'cbmc.%s%s.json' % (tag, tagsuffix))
         rssf = os.path.join(wd, 'rss.%s.txt' % tag)
         cmd = base + _backend_flags(b)
         fo = open(outp, 'wb')
@@ -315,7 +321,7 @@ def build_native(obl, wd, extra_defs):
             raise RuntimeError('native compile failed for %s:\n%s' % (s, o))
         objs.append(out)
     exe = os.path.join(nd, 'replay')
-    rc, o = sh(['gcc', '-o', exe] + objs + ['-fsanitize=address,undefined', '-lm', '-lpthread'])
+    rc, o = sh(['gcc', '-o', exe] + objs + ['-fsanitize=address,undefined', '-lm', '-lpthread', '-Wl,--unresolved-symbols=ignore-all'])
     if rc:
         raise RuntimeError('native link failed:\n%s' % o)
     return exe
@@ -407,7 +413,25 @@ def run_obligation(prop, obl, tier):
         res.rung = label
         res.attempts.append(att)
         if real_fails:
-            res.failed = real_fails
+            # phase 2: one traced query per failed property (at most 3; unwinding failures first are least informative)
+            real_fails.sort(key=lambda r: (is_unwind(r), is_ptr_overflow(r)))
+            traced = []
+            for k, fr in enumerate(real_fails[:3]):
+                st2, wall2, rss2, outp2, cmd2, btag2 = run_cbmc(obl, final, wd, unwind, unwindset, timeout,
+                                                                extra=['--trace', '--property', fr['property']], tagsuffix='.t%d' % k)
+                pr2 = parse_cbmc(outp2) if st2 != 'timeout' else {'verdict': 'error', 'results': []}
+                got = [r for r in pr2.get('results', []) if r.get('property') == fr['property'] and r.get('status') == 'FAILURE']
+                if got:
+                    traced.append(got[0])
+                else:
+                    fr = dict(fr); fr['trace'] = []
+                    traced.append(fr)
+                try:
+                    os.remove(outp2)
+                except OSError:
+                    pass
+            att['failed_properties'] = [{'property': r.get('property'), 'description': r.get('description')} for r in real_fails[:12]]
+            res.failed = traced
             res.status = 'violated'
             res._wd = wd
             res._xdefs = xdefs
@@ -570,7 +594,7 @@ def run_property(prop, title, obligations, tier, level_text, trusted_base, outsi
         only_ptr = all(c.get('ptr_overflow') for c in r.replays)
         log('[%s]   UNCONFIRMED counterexample in %s (replay: %s)%s: %s' % (
             prop, r.obl.name, ','.join(kinds), ' [pointer-arithmetic UB only, no sanitizer can confirm]' if only_ptr else '',
-            '; '.join('%s @ %s' % (c['description'], c['where']) for c in r.replays[:3])))
+            '; '.join('%s @ %s' % (c.get('description'), c.get('where', c.get('detail', ''))) for c in r.replays[:3])))
         if exit_code == 0:
             exit_code = 2
     bad = [r for r in results if r.status in ('inconclusive', 'error', 'vacuous') and not r.obl.expect_known]
@@ -608,7 +632,7 @@ def write_evidence(prop, title, tier, seed, results, wall, level_text, trusted_b
         e = {
             'obligation': o.name, 'what': o.desc, 'status': r.status, 'bound_decided': r.rung,
             'bound_text': o.bound, 'units_encoded': o.units + list(getattr(o, 'units_note', [])), 'seams_stubbed': o.seams, 'environment_stubs': o.stubs,
-            'harness': 'harness/' + o.harness, 'assumes': o.assumes, 'backend': (r.attempts[-1].get('backend') if r.attempts else None) or 'minisat2',
+            'harness': 'harness/' + o.harness, 'assumes': o.assumes, 'backend': (r.attempts[-1].get('backend') if r.attempts else None) or 'cadical',
             'attempts': r.attempts, 'wall_s': round(r.wall, 1),
         }
         if r.status in ('violated', 'known'):
